@@ -573,6 +573,8 @@ pub enum Op {
     Merge(u16),
     /// re-create the writer on an index handle whose docstore settings are replaced (later merges re-compress)
     Recfg(StoreCfg),
+    /// back to the settings the index was created with (segments of both codecs exist, the target codec is the older one)
+    RecfgInitial,
 }
 #[derive(Clone, Debug, Serialize, Deserialize)]
 pub struct IndexCase {
@@ -724,17 +726,36 @@ impl Sub for Idx {
             2 => prop::collection::vec(any::<u16>(), 1..5).prop_map(Op::Delete),
             1 => (docs(0), prop::collection::vec(any::<u16>(), 1..5)).prop_map(|(d, p)| Op::AddDel(d, p)),
             4 => prop_oneof![4 => Just(0u16), 1 => Just(1u16), 1 => Just(2u16), 2 => Just(3u16), 1 => Just(6u16), 3 => any::<u16>()].prop_map(Op::Merge),
-            1 => store_cfg().prop_map(Op::Recfg),
+            2 => store_cfg().prop_map(Op::Recfg),
+            1 => Just(Op::RecfgInitial),
         ];
-        (store_cfg(), prop_oneof![3 => Just(0u8), 1 => Just(1u8), 1 => Just(2u8)], docs(2), prop::collection::vec(op, 0..7), reads())
-            .prop_map(|(cfg, sort, first, ops, reads)| IndexCase { cfg, sort, first, ops, reads })
-            .boxed()
+        let generic = (store_cfg(), prop_oneof![3 => Just(0u8), 1 => Just(1u8), 1 => Just(2u8)], docs(2), prop::collection::vec(op, 0..7), reads())
+            .prop_map(|(cfg, sort, first, ops, reads)| IndexCase { cfg, sort, first, ops, reads });
+        // segments written with two different codecs, merged (in both orders of "which one is the target codec") while
+        // every source is large enough and free of deletes, i.e. would be stacked if its codec were the target's
+        let mixed = (store_cfg(), store_cfg(), 8u16..40, 8u16..40, any::<u8>(), any::<bool>(), any::<bool>(), reads()).prop_map(|(mut a, mut b, n1, n2, salt, back, add_after, reads)| {
+            a.block = a.block.min(64);
+            b.block = b.block.min(64);
+            if b.family() == a.family() {
+                b.comp = (a.family() + 1) % 3;
+            }
+            let mut ops = vec![Op::Recfg(b), Op::Add(vec![Item::Fill { n: n2, len: 5, salt: salt.wrapping_add(1) }])];
+            if back {
+                ops.push(Op::RecfgInitial);
+            }
+            if add_after {
+                ops.push(Op::Add(vec![Item::Fill { n: 3, len: 2, salt: salt.wrapping_add(2) }]));
+            }
+            ops.push(Op::Merge(0));
+            IndexCase { cfg: a, sort: 0, first: vec![Item::Fill { n: n1, len: 5, salt }], ops, reads }
+        });
+        prop_oneof![12 => generic, 1 => mixed].boxed()
     }
     fn mandatory_labels(&self, _t: Tier) -> Vec<&'static str> {
         vec![
             "comp=none", "comp=lz4", "comp=zstd", "comp=zstd(level)", "block<=8B", "block>16KiB", "dedicated_thread", "same_thread",
             "sorted_index", "unsorted_index", "has_deletes", "delete_in_same_commit_as_add", "segments>=3",
-            "merge", "merge_src_stackable", "merge_all_stacked", "merge_all_stacked_multi", "merge_src_has_deletes", "merge_src_lt6_blocks", "merge_codec_changed", "merge_sorted", "merge_of_merged", "merge_single_segment",
+            "merge", "merge_src_stackable", "merge_all_stacked", "merge_all_stacked_multi", "merge_src_has_deletes", "merge_src_lt6_blocks", "merge_codec_changed", "merge_later_src_other_codec_after_same_codec_first", "merge_later_src_same_codec_after_other_codec_first", "merge_sorted", "merge_of_merged", "merge_single_segment",
             "blocks>=600", "skip_layers>=4", "doc_larger_than_block", "doc>100KB", "cache=0", "cache=1", "cache=100",
             "value:null", "value:str", "value:pretok", "value:u64", "value:i64", "value:f64", "value:bool", "value:date", "value:facet", "value:bytes", "value:ip",
             "value:array", "value:object", "json_depth>=8", "multi_valued_field", "json_nested_date_ip_bytes_facet_pretok", "unicode_text", "empty_document", "json_container>=128_slots", "doc_with>=128_values", "value>=2MiB",
@@ -803,7 +824,8 @@ impl Sub for Idx {
                     w.commit().or_fail("commit_failed")?;
                     cx.label("has_deletes");
                 }
-                Op::Recfg(cfg) => {
+                Op::Recfg(_) | Op::RecfgInitial => {
+                    let cfg = if let Op::Recfg(cfg) = op { cfg } else { &c.cfg };
                     drop(w);
                     let mut index2 = index.clone();
                     index2.settings_mut().docstore_compression = cfg.compressor();
@@ -830,6 +852,14 @@ impl Sub for Idx {
                     let seg_ids: Vec<_> = chosen.iter().map(|s| searcher.segment_reader(s.ord).segment_id()).collect();
                     // classification of the merge (evidence only), by the merger's documented rule
                     let mut all_stack = c.sort % 3 == 0;
+                    let codec_of = |s: &SegInfo| s.layout.as_ref().map(|l| l.codec_id == [0u8, 1, 4][cur_cfg.family() as usize]).unwrap_or(false);
+                    let first_same = chosen.first().map(|s| codec_of(s)).unwrap_or(false);
+                    for (k, s) in chosen.iter().enumerate() {
+                        let blocks = s.layout.as_ref().map(|l| l.blocks.len()).unwrap_or(0);
+                        // the first source is in the target codec, a later one is not but would otherwise be stacked
+                        cx.label_if(k > 0 && first_same && !codec_of(s) && !s.has_deletes && blocks >= 6 && c.sort % 3 == 0, "merge_later_src_other_codec_after_same_codec_first");
+                        cx.label_if(k > 0 && !first_same && codec_of(s) && !s.has_deletes && blocks >= 6 && c.sort % 3 == 0, "merge_later_src_same_codec_after_other_codec_first");
+                    }
                     for s in &chosen {
                         let blocks = s.layout.as_ref().map(|l| l.blocks.len()).unwrap_or(0);
                         let same_codec = s.layout.as_ref().map(|l| l.codec_id == [0u8, 1, 4][cur_cfg.family() as usize]).unwrap_or(false);
@@ -881,7 +911,7 @@ impl Sub for Idx {
         if nontrivial || big_doc {
             cx.nontrivial(fp(c));
         }
-        cx.sample(|| json!({"sub":"index","cfg":c.cfg,"sort":c.sort,"docs":all_docs.len(),"ops":c.ops.iter().map(|o| match o { Op::Add(i) => format!("add {}", expand_items(i).len()), Op::AddDel(i, p) => format!("add {} delete {}", expand_items(i).len(), p.len()), Op::Delete(p) => format!("delete {}", p.len()), Op::Merge(m) => format!("merge {m:#x}"), Op::Recfg(c) => format!("recfg {c:?}") }).collect::<Vec<_>>()}));
+        cx.sample(|| json!({"sub":"index","cfg":c.cfg,"sort":c.sort,"docs":all_docs.len(),"ops":c.ops.iter().map(|o| match o { Op::Add(i) => format!("add {}", expand_items(i).len()), Op::AddDel(i, p) => format!("add {} delete {}", expand_items(i).len(), p.len()), Op::Delete(p) => format!("delete {}", p.len()), Op::Merge(m) => format!("merge {m:#x}"), Op::Recfg(c) => format!("recfg {c:?}"), Op::RecfgInitial => "recfg-initial".to_string() }).collect::<Vec<_>>()}));
         Ok(())
     }
 }
